@@ -303,15 +303,18 @@ class State:
         k = z3.Const("k!live", Val)
         if key.startswith("f:") and not key.startswith("f:$"):
             v = z3.Select(a, r)
-            ax = z3.ForAll([r], z3.Implies(smt.is_ref(v), smt.rid(v) < bound))
+            ax = z3.ForAll([r], z3.Implies(smt.is_ref(v), z3.Or(smt.rid(v) < bound, r >= bound)), patterns=[v])
         elif key in ("lel", "dkeys"):
             v = z3.Select(z3.Select(a, r), i)
-            ax = z3.ForAll([r, i], z3.Implies(smt.is_ref(v), smt.rid(v) < bound))
+            ax = z3.ForAll([r, i], z3.Implies(smt.is_ref(v), z3.Or(smt.rid(v) < bound, r >= bound)), patterns=[v])
         elif key == "dget":
             v = z3.Select(z3.Select(a, r), k)
-            ax = z3.ForAll([r, k], z3.Implies(smt.is_ref(v), smt.rid(v) < bound))
+            ax = z3.ForAll([r, k], z3.Implies(smt.is_ref(v), z3.Or(smt.rid(v) < bound, r >= bound)), patterns=[v])
         else:
             return
+        # (rows at or above the bound belong to objects that did not exist in that state: a callee that allocates fills
+        # them with whatever its contract says, including references to still newer objects; the explicit pattern keeps
+        # the instantiation as cheap as that of the unrestricted axiom)
         self.pc.append(ax)
 
     def setarr(self, key, a, ref=None):
@@ -1427,7 +1430,16 @@ class Interp:
             f = ci.find_field(attr)
             if f is not None:
                 owner, (ann, dflt) = f
-                # class-level attribute read (ClassVar / default): evaluate the default expression
+                # class-level attribute read (ClassVar / default): evaluate the default expression -- except for mutable
+                # containers (registries filled at import time, class-level caches): one fixed object per (class, attribute)
+                # whose contents are unknown
+                if isinstance(dflt, (ast.Dict, ast.List, ast.Set)) or (isinstance(dflt, ast.Call) and isinstance(dflt.func, ast.Name)
+                                                                           and dflt.func.id in ("dict", "list", "set", "defaultdict")):
+                    ty = T.parse_ann(ann, owner.module, owner) if ann is not None else T.ANY
+                    if ty.k not in ("dict", "list", "set"):
+                        ty = {ast.Dict: T.DICT(), ast.List: T.LIST(), ast.Set: T.SET()}.get(type(dflt), T.DICT())
+                    st.log.append(f"class-level container {owner.name}.{attr}: contents unknown (filled at import / run time)")
+                    return SV(smt.mk_ref(-(800000000 + smt.STR.id(f"clsattr:{owner.name}.{attr}"))), ty)
                 if dflt is not None:
                     return self.ev(dflt, Frame(owner.module, owner))
             raise Refuse(f"class attribute {ci.name}.{attr}")
